@@ -950,3 +950,157 @@ pub fn record_cli_opt(cj: &Value, tr: &mut Tr, bin: &str, dir: &str, idx: usize)
     let _ = std::fs::remove_file(&outfile);
     let _ = std::fs::remove_file(&path);
 }
+
+// ---------------------------------------------------------------------------------------
+// GENERIC-PHASE tier (`--generic N`): circuits with rz / rx / parity-phase angles n/d * pi that are NOT multiples of pi/4 - the
+// clause "to floating-point tolerance" of C02 and the "arbitrary rational Z/X phases" of C03's quantifier.  TLC cannot decide
+// floating point: the harness compares with the independent float reference evaluator (refeval.rs: ref_circ from the gate
+// matrices of spec/Circuit.tla, ref_den from the definition of spec/ZXSem.tla; validated against the exact specification by
+// Trace_Tensor!RefEvalOK) and logs BOOLEANS, the trace specifications judge them.
+//   begin    {what: "generic_circ", c}
+//   tographf {mode, be, res: ok|panic|toobig, close, arity, approx}       Trace_Circ:    TranslatedFloat, NoPanic
+//   extractf {simp, mode, be, res: ok|error|panic|timeout, close, n, kinds} Trace_Extract: ExtractOKFloat (close, same qubits,
+//            kinds within the basic gate set - the last two judged by TLC from the logged values), ExtractionSucceeds, NoPanic, Terminates
+// ---------------------------------------------------------------------------------------
+
+fn tograph_f<G: GraphLike>(c: &Circuit, mode: &str, be: &str, want: &[crate::refeval::C]) -> Value {
+    use crate::refeval::{abs_f, close, den_bits, ref_den};
+    let (simp, post) = match mode {
+        "plain" => (false, false),
+        "simp" => (true, false),
+        "postsel" => (false, true),
+        "simp_postsel" => (true, true),
+        _ => panic!("mode"),
+    };
+    match guarded(|| c.to_graph_with_options::<G>(simp, post)) {
+        Err(msg) => json!({"k": "tographf", "mode": mode, "be": be, "res": "panic", "msg": msg}),
+        Ok(g) => {
+            let a = abs_f(&g);
+            if den_bits(&a) > crate::refeval::MAX_BITS {
+                return json!({"k": "tographf", "mode": mode, "be": be, "res": "toobig"});
+            }
+            let n = c.num_qubits();
+            let arity = g.inputs().len() == n && g.outputs().len() == n;
+            json!({"k": "tographf", "mode": mode, "be": be, "res": "ok", "arity": arity, "close": arity && close(&ref_den(&a), want, 1e-9),
+                   "approx": crate::absg::sc_is_approx(g.scalar())})
+        }
+    }
+}
+
+pub fn record_tograph_generic(cj: &Value, tr: &mut Tr) {
+    let c = circ_from_json(cj);
+    tr.group();
+    tr.emit(json!({"k": "begin", "what": "generic_circ", "c": cj}));
+    let want = crate::refeval::ref_circ(cj);
+    for mode in ["plain", "simp", "postsel", "simp_postsel"] {
+        let ev = tograph_f::<quizx::vec_graph::Graph>(&c, mode, "vec", &want);
+        let eh = tograph_f::<quizx::hash_graph::Graph>(&c, mode, "hash", &want);
+        let same = {
+            let (mut x, mut y) = (ev.clone(), eh.clone());
+            x["be"] = json!("");
+            y["be"] = json!("");
+            x == y
+        };
+        if same {
+            let mut e = eh;
+            e["be"] = json!("both");
+            tr.emit(e);
+        } else {
+            tr.emit(ev);
+            tr.emit(eh);
+        }
+    }
+}
+
+fn extract_one_f<G: GraphLike>(c: &Circuit, simp: &str, mode: &str, be: &str, want: &[crate::refeval::C]) -> Value {
+    let r = crate::eng_simp::with_watchdog(30, {
+        let (c, simp, mode) = (c.clone(), simp.to_string(), mode.to_string());
+        move || {
+            guarded(|| {
+                let mut g: G = c.to_graph();
+                simp_by(&simp, &mut g);
+                match extract_by(&mut g, &mode) {
+                    Ok(c2) => Ok(circ_json(&c2)),
+                    Err(e) => Err(format!("{e}").chars().filter(|ch| ch.is_ascii() && *ch != '"').take(100).collect::<String>()),
+                }
+            })
+        }
+    });
+    let head = json!({"k": "extractf", "simp": simp, "mode": mode, "be": be});
+    let with = |mut h: Value, more: Value| {
+        for (k, v) in more.as_object().unwrap() {
+            h[k] = v.clone();
+        }
+        h
+    };
+    match r {
+        None => with(head, json!({"res": "timeout"})),
+        Some(Err(m)) => with(head, json!({"res": "panic", "msg": m})),
+        Some(Ok(Err(m))) => with(head, json!({"res": "error", "msg": m})),
+        Some(Ok(Ok(out))) => {
+            let n = c.num_qubits();
+            let n2 = out["n"].as_u64().unwrap() as usize;
+            let mut kinds: Vec<String> = out["gates"].as_array().unwrap().iter().map(|g| g["t"].as_str().unwrap().to_string()).collect();
+            kinds.sort();
+            kinds.dedup();
+            let evaluable = n2 == n && kinds.iter().all(|k| crate::refeval::is_unitary_kind(k));
+            let close = evaluable && {
+                let got = crate::refeval::ref_circ(&out);
+                if matches!(mode, "perm" | "simple_perm" | "perm_simple" | "flow_perm") {
+                    crate::refeval::proj_close_up_to_perm(&got, want, n, 1e-9)
+                } else {
+                    crate::refeval::proj_close(&got, want, 1e-9)
+                }
+            };
+            with(head, json!({"res": "ok", "close": close, "n": n2, "kinds": kinds, "ngates": out["gates"].as_array().unwrap().len()}))
+        }
+    }
+}
+
+/// the combinations C03 promises: {flow, clifford, full} x {single-solution-set, simple-Gauss, up-to-permutation} and flow x flow
+pub fn record_extract_generic(cj: &Value, tr: &mut Tr) {
+    let c = circ_from_json(cj);
+    tr.group();
+    tr.emit(json!({"k": "begin", "what": "generic_circ", "c": cj}));
+    let want = crate::refeval::ref_circ(cj);
+    let mut combos: Vec<(&str, &str)> = vec![];
+    for s in ["flow", "clifford", "full"] {
+        for m in ["gflow", "simple", "perm"] {
+            combos.push((s, m));
+        }
+    }
+    combos.push(("flow", "flow"));
+    for (s, m) in combos {
+        let ev = extract_one_f::<quizx::vec_graph::Graph>(&c, s, m, "vec", &want);
+        let eh = extract_one_f::<quizx::hash_graph::Graph>(&c, s, m, "hash", &want);
+        let same = {
+            let (mut a, mut b) = (ev.clone(), eh.clone());
+            a["be"] = json!("");
+            b["be"] = json!("");
+            a == b
+        };
+        if same {
+            let mut e = ev;
+            e["be"] = json!("both");
+            tr.emit(e);
+        } else {
+            tr.emit(ev);
+            tr.emit(eh);
+        }
+    }
+}
+
+pub fn record_generic(engine: &str, n: usize, seed: u64, tr: &mut Tr) -> usize {
+    let mut r = crate::gens::rng(seed ^ 0x6e7e);
+    for i in 0..n {
+        if engine == "tograph" {
+            // every third circuit may contain one CCZ / Toffoli (the post-selection option only matters there)
+            let cj = generic_circuit(&mut r, 3, 6, true, if i % 3 == 0 { 1 } else { 0 });
+            record_tograph_generic(&cj, tr);
+        } else {
+            let cj = generic_circuit(&mut r, 3, 8, true, if i % 4 == 0 { 1 } else { 0 });
+            record_extract_generic(&cj, tr);
+        }
+    }
+    n
+}
